@@ -104,8 +104,12 @@ func vSnapshotViews(t testing.TB, e *vEnv) (map[string]map[string]string, map[st
 	return views, orig, nil
 }
 
+var c34BadIdxKinds = []string{"length-shortened", "pack-unindexed", "offset-shifted", "entry-dropped", "foreign-id"}
+
 // c34Env is what one C34 scenario works on.
 type c34Env struct {
+	seed int64
+	si   int
 	l    *vLife
 	e    *vEnv
 	r    *rand.Rand
@@ -250,6 +254,33 @@ func c34Damage(c *c34Env, class string) (runs [][]string, desc string) {
 			c.flipBlobs(victim, []int{k})
 			return [][]string{{victim}}, desc + fmt.Sprintf("pack %.8s blob %d of %d flipped", victim, k, len(bl))
 		}
+	case "badidx":
+		// the pack file is intact, its index entry is not (same number of blobs, one of them described wrongly, or
+		// one blob missing from the entry): `repair packs` has to go by the pack's own header
+		if r.Intn(3) == 0 {
+			if _, _, err := vCraftLongFiles(e, r); err == nil {
+				desc = "long-files "
+			}
+		}
+		dp := c.dataPacks(e.store.Names(backend.PackFile))
+		var victim, kind string
+		// the kinds take turns (over the scenarios of a run and over the seeds)
+		want := c34BadIdxKinds[(int(c.seed/100000)+c.si)%len(c34BadIdxKinds)]
+		for _, i := range r.Perm(len(dp)) {
+			if k, err := c.corruptIndexEntry(dp[i], want); err == nil {
+				victim, kind = dp[i], k
+				break
+			}
+		}
+		if victim == "" {
+			break // (nothing indexed: falls through to the random class)
+		}
+		ids := []string{victim}
+		if r.Intn(3) == 0 {
+			ids = append(ids, c.ghostID([]string{"low", "high"}[r.Intn(2)]))
+			sort.Strings(ids)
+		}
+		return [][]string{ids}, desc + fmt.Sprintf("index entry of intact pack %.8s: %s, ids %v", victim, kind, vShort(ids))
 	case "multi":
 		// `repair packs` with several ids: ids for which neither the index nor a readable header yields a blob
 		// (an id that does not exist, a pack an earlier run already removed, an unindexed pack with a broken
@@ -338,16 +369,21 @@ func c34Damage(c *c34Env, class string) (runs [][]string, desc string) {
 }
 
 func TestVerif_C34(t *testing.T) {
-	res := kit.NewResult("one case = one damaged generated repository followed by the real `repair packs <ids>` (one or two invocations, optionally killed at the k-th mutating operation and re-run; `repair index` for a lost pack) and `repair snapshots --forget`.  Classes: rand = one pack with bit flips at seeded offsets of its blob area or a tail truncation that destroys the header; craft = snapshots whose files have 2..6 content entries with shared and repeated blobs (spread over several packs), one of their data packs lost / cut inside the blob area / 1..3 neighbouring blobs flipped; multi = `repair packs` with several ids mixing damaged-but-salvageable packs with ids that yield no blob (id that does not exist, pack removed by an earlier run, unindexed pack with truncated header) and unindexed packs with intact header, ordered before / behind the salvageable ones.  Judged by RepoTrace.tla R_RepairKeepsReadable (a pack is removed only after every blob still readable from it is indexed in another pack) and the baseline-relative invariants at every step, by the real check afterwards, and by comparing every file that was fully readable before the repair with the repaired snapshots; distinct by scenario seed")
+	res := kit.NewResult("one case = one damaged generated repository followed by the real `repair packs <ids>` (one or two invocations, optionally killed at the k-th mutating operation and re-run; `repair index` for a lost pack) and `repair snapshots --forget`.  Classes: rand = one pack with bit flips at seeded offsets of its blob area or a tail truncation that destroys the header; craft = snapshots whose files have 2..6 content entries with shared and repeated blobs (spread over several packs), one of their data packs lost / cut inside the blob area / 1..3 neighbouring blobs flipped; badidx = an intact pack whose index entry is wrong (one blob with shortened length / shifted offset / foreign id, one blob left out, or the pack not listed at all) named in `repair packs`; multi = `repair packs` with several ids mixing damaged-but-salvageable packs with ids that yield no blob (id that does not exist, pack removed by an earlier run, unindexed pack with truncated header) and unindexed packs with intact header, ordered before / behind the salvageable ones.  Judged by RepoTrace.tla R_RepairKeepsReadable (a pack is removed only after every blob still readable from it is indexed in another pack) and the baseline-relative invariants at every step, by the real check afterwards, by comparing every file that was fully readable before the repair with the repaired snapshots, and by Fn_RepairFilesRec.tla on one record per reachable file (content list after `repair snapshots` = content list before with exactly the unavailable entries removed); distinct by scenario seed")
 	tr := kit.NewNDJSON("trace.ndjson")
 	defer tr.Close()
+	// one record per reachable file of every snapshot: content list before / after `repair snapshots` and the
+	// availability of every entry, judged by Fn_RepairFilesRec.tla
+	recs := kit.NewNDJSON("recs.ndjson")
+	defer recs.Close()
+	nrecs := 0
 	classOf := func(si int) string {
 		if kit.Thorough() {
-			return []string{"rand", "craft", "multi", "rand"}[si%4]
+			return []string{"rand", "craft", "multi", "badidx", "craft", "rand"}[si%6]
 		}
-		return []string{"rand", "craft", "multi", "craft", "multi", "rand", "craft", "multi"}[si%8]
+		return []string{"rand", "craft", "multi", "badidx", "craft", "multi", "rand", "craft", "badidx"}[si%9]
 	}
-	ns := kit.Pick(16, 250)
+	ns := kit.Pick(18, 250)
 	for si := 0; si < ns; si++ {
 		seed := kit.Seed()*100000 + 3400 + int64(si)
 		r := rand.New(rand.NewSource(seed))
@@ -363,7 +399,7 @@ func TestVerif_C34(t *testing.T) {
 			}
 		}
 		e := l.e
-		c := &c34Env{l: l, e: e, r: r, proj: e.projector()}
+		c := &c34Env{seed: seed, si: si, l: l, e: e, r: r, proj: e.projector()}
 		runs, desc := c34Damage(c, class)
 		vMaxUnavailableRun = 0
 		before, _, err := vSnapshotViews(t, e)
@@ -420,6 +456,14 @@ func TestVerif_C34(t *testing.T) {
 			// after a crashed first run the pack may already be gone; otherwise repair packs must work
 			res.Violate("repair-packs/fails", fmt.Sprintf("scenario %d (%s): repair packs failed: %v :: %s", seed, desc, rerr, vTail(e.lastErr, 300)), map[string]any{"scenario": seed})
 		}
+		if class == "badidx" {
+			res.Count("intact_pack_with_wrong_index_entry", 1)
+		}
+		// what every reachable file consists of, and which of its entries are available, now that the packs are dealt with
+		pre, _, perr := vFileLists(e, true)
+		if perr != nil {
+			res.Problem("scenario %d: file lists before repair snapshots: %v", seed, perr)
+		}
 		// repair snapshots --forget, then the repository must pass check and keep every fully available file
 		serr := e.run("repair-snapshots", nil, func(ctx context.Context, g global.Options) error {
 			return runRepairSnapshots(ctx, g, RepairOptions{Forget: true}, nil, g.Term)
@@ -429,6 +473,38 @@ func TestVerif_C34(t *testing.T) {
 		} else {
 			if cerr, out := e.check(true); cerr != nil {
 				res.Violate("repair-snapshots/check-fails-afterwards", fmt.Sprintf("scenario %d (%s): check --read-data after repair packs + repair snapshots --forget: %v :: %s", seed, desc, cerr, vTail(out, 300)), map[string]any{"scenario": seed})
+			}
+			if post, porig, err := vFileLists(e, false); err != nil {
+				res.Problem("scenario %d: file lists after repair snapshots: %v", seed, err)
+			} else {
+				for oldID, files := range pre {
+					succ := post[oldID]
+					for nid, o := range porig {
+						if o == oldID {
+							succ = post[nid]
+						}
+					}
+					var paths []string
+					for p := range files {
+						paths = append(paths, p)
+					}
+					sort.Strings(paths)
+					for _, p := range paths {
+						f := files[p]
+						rec := map[string]any{"scenario": seed, "snap": oldID[:8], "path": p, "before": f.Content, "ok": f.OK, "idx": f.Idx, "present": false, "after": []string{}}
+						if g, ok := succ[p]; ok {
+							rec["present"], rec["after"] = true, g.Content
+						}
+						recs.Write(rec)
+						nrecs++
+						for i := range f.OK {
+							if !f.OK[i] && i+1 < len(f.OK) {
+								res.Count("file_records_with_unavailable_entry_before_the_last", 1)
+								break
+							}
+						}
+					}
+				}
 			}
 			after, orig, err := vSnapshotViews(t, e)
 			if err != nil {
@@ -488,5 +564,6 @@ func TestVerif_C34(t *testing.T) {
 		tr.Write(kit.Ev{"ev": "Reset", "proc": "env", "history": seed, "desc": desc})
 		vWriteTrace(tr, e.trace(false))
 	}
+	res.Count("file_records", nrecs)
 	res.Save("")
 }
